@@ -60,7 +60,8 @@ impl J {
             Value::Object(o) => J::Obj(o.iter().map(|(k, v)| (k.clone(), J::from_value(v))).collect()),
         }
     }
-    /// members sorted the way `serde_json::Map` (BTreeMap<String,_>) iterates; duplicates: last wins
+    /// members in the order the `serde_json::Value` built from this value will iterate them: sorted for
+    /// the default BTreeMap-backed map, insertion order under `preserve_order`; duplicates: last wins
     pub fn sorted(&self) -> J {
         match self {
             J::Arr(a) => J::Arr(a.iter().map(|x| x.sorted()).collect()),
@@ -73,7 +74,10 @@ impl J {
                         out.push((k.clone(), v.sorted()));
                     }
                 }
-                out.sort_by(|a, b| a.0.cmp(&b.0));
+                // with serde_json's `preserve_order` the Value keeps insertion order: nothing to sort
+                if !cfg!(feature = "preserve_order") {
+                    out.sort_by(|a, b| a.0.cmp(&b.0));
+                }
                 J::Obj(out)
             }
             x => x.clone(),
